@@ -199,7 +199,7 @@ Inductive outcome :=
 | OCands (c : cands)
 | OZero                         (* lang.ZeroCandidates, nil error *)
 | OErr (msg : string)           (* PositionalError *)
-| ODelegated (attr : string).   (* inside an attribute value: value-level completion *)
+| ODelegated (a : attr) (bs : body_schema).   (* inside an attribute value: value-level completion (Model/ValueCands.v) with the body schema in force *)
 
 Definition range_within_file_dot (file : string) (e : range) (p : pos) : bool :=
   (* edge case: trailing '.' right after the expression *)
@@ -254,7 +254,7 @@ Section CompletionAtPos.
             (ext_has ext_for_each (bs_ext bs) && String.eqb (a_name a) "for_each") ||
             match alookup (a_name a) (bs_attrs bs) with Some _ => true | None => false end ||
             match bs_any bs with Some _ => true | None => false end in
-          Some (if known then ODelegated (a_name a) else OZero)
+          Some (if known then ODelegated a bs else OZero)
         else if contains_pos (a_name_rng a) p then
           Some (OCands (body_schema_candidates max_candidates b bs (slice_bytes file (with_end (a_name_rng a) p)) (a_rng a)))
         else if contains_pos (a_eq_rng a) p then Some OZero
@@ -345,7 +345,7 @@ Definition sexp_of_outcome (o : outcome) : sexp :=
   | OCands c => SList [SAtom "cands"; sB (cs_complete c); SList (map sexp_of_cand (cs_list c))]
   | OZero => SList [SAtom "cands"; sB true; SList []]
   | OErr m => SList [SAtom "err"; SStr m]
-  | ODelegated _ => SList [SAtom "delegated"]
+  | ODelegated _ _ => SList [SAtom "delegated"]
   end.
 
 (* (completion MAX "file bytes" (tokens...)|nolex ((key (pairs))...) POS BODY SCHEMA) *)
